@@ -18,6 +18,15 @@ import gzip
 logger = logging.getLogger('IsoQuant')
 
 
+def dump_config(config_path, config):
+    # several IsoQuant processes may share the config file: write a temporary file and move it into place,
+    # so that the config is never seen empty or half-written
+    tmp_config_path = "%s.%d.tmp" % (config_path, os.getpid())
+    with open(tmp_config_path, 'w') as f_out:
+        json.dump(config, f_out)
+    os.replace(tmp_config_path, config_path)
+
+
 def db2gtf(db, gtf, _=None):
     logger.info("Converting gene annotation file to .gtf format (takes a while)...")
     with open(gtf, "w") as f:
@@ -366,8 +375,7 @@ def convert_db(gtf_filename, genedb_filename, convert_fn, args):
         'db_mtime': os.path.getmtime(genedb_filename),
         'complete_db': args.complete_genedb
     }
-    with open(args.db_config_path, 'w') as f_out:
-        json.dump(converted_gtfs, f_out)
+    dump_config(args.db_config_path, converted_gtfs)
     return gtf_filename, genedb_filename
 
 
